@@ -181,7 +181,8 @@ class SBytes:
                     if x != y:
                         return False
                     continue
-                terms.append(_t8(x) == _t8(y))
+                e = _same_table_eq(x, y) if (z3.is_expr(x) and z3.is_expr(y)) else None
+                terms.append(e if e is not None else _t8(x) == _t8(y))
             if not terms:
                 return True
             return SBool(z3.And(*terms))
@@ -364,8 +365,7 @@ def known_codes(t):
     """set of code points a character term can take when that is known syntactically (digit of a rendered number, output of
     a lookup table), else None - saves a solver call for every comparison with a constant outside the set"""
     try:
-        while z3.is_app_of(t, z3.Z3_OP_ZERO_EXT):
-            t = t.arg(0)
+        t = sym.strip_zext(t)
         o = sym.DIGIT_ORIGIN.get(t.get_id())
         if o is not None and o[3].eq(t):
             return _DIGITS
@@ -389,7 +389,29 @@ def _ceq(x, y):
         k = known_codes(t)
         if k is not None and ord(c) not in k:
             return False
+    if z3.is_expr(x) and z3.is_expr(y):
+        e = _same_table_eq(x, y)
+        if e is not None:
+            return e
     return _t21(x) == _t21(y)
+
+
+def _same_table_eq(x, y):
+    """two symbols that are look-ups in one and the same injective table are equal exactly when their indices are:
+    the comparison then needs no array reasoning"""
+    try:
+        tx, ty = sym.strip_zext(x), sym.strip_zext(y)
+        ox, oy = sym.origin_of(tx), sym.origin_of(ty)
+        if ox is None or oy is None or ox[0] is not oy[0]:
+            return None
+        T = ox[0]
+        if len(set(T.values)) != len(T.values):
+            return None
+        i, j = ox[1], oy[1]
+        w = max(i.w, j.w)
+        return i.ext(w) == j.ext(w)
+    except Exception:
+        return None
 
 
 class SStr:
@@ -722,7 +744,14 @@ class SStr:
                 out += list(m)
                 wd += [None] * len(m)
                 continue
-            if bool(SBool(z3.ULT(ch, 128))):
+            k = known_codes(ch)
+            if k is not None and max(k) < 128:
+                lo, hi, d = (0x61, 0x7A, -32) if up else (0x41, 0x5A, 32)
+                if not any(lo <= x <= hi for x in k):
+                    out.append(ch)                      # e.g. lower() of lower-case hex digits: unchanged, origin kept
+                    wd.append(w)
+                    continue
+            if (k is not None and max(k) < 128) or bool(SBool(z3.ULT(ch, 128))):
                 lo, hi, d = (0x61, 0x7A, -32) if up else (0x41, 0x5A, 32)
                 out.append(z3.If(z3.And(z3.UGE(ch, lo), z3.ULE(ch, hi)), ch + z3.BitVecVal(d % (1 << 21), 21), ch))
                 wd.append(w)
@@ -785,6 +814,28 @@ class SStr:
                 else:
                     out += [z3.Concat(C(0b11110, 5), E(20, 18)), z3.Concat(C(0b10, 2), E(17, 12)),
                             z3.Concat(C(0b10, 2), E(11, 6)), z3.Concat(C(0b10, 2), E(5, 0))]
+            return SBytes(out)
+        if e in ("utf-16-le", "utf-16le", "utf-16-be", "utf-16be"):
+            le = e.endswith("le")
+            out = []
+            for ch, w in zip(self.c, self.wd):
+                if isinstance(ch, str):
+                    out += list(ch.encode(e, errors))
+                    continue
+                if w is None:
+                    w = 4 if bool(SBool(z3.UGE(ch, 0x10000))) else 3
+                if w < 4:
+                    if w == 3 and bool(SBool(z3.And(z3.UGE(ch, 0xD800), z3.ULE(ch, 0xDFFF)))):
+                        raise UnicodeEncodeError("utf-16", "\ud800", 0, 1, "surrogates not allowed")
+                    hi, lo = z3.Extract(15, 8, ch), z3.Extract(7, 0, ch)
+                    out += [lo, hi] if le else [hi, lo]
+                else:
+                    v = ch - 0x10000
+                    h = z3.Concat(z3.BitVecVal(0b110110, 6), z3.Extract(19, 10, v))       # D800 + top ten bits
+                    l = z3.Concat(z3.BitVecVal(0b110111, 6), z3.Extract(9, 0, v))         # DC00 + low ten bits
+                    for u in (h, l):
+                        hi, lo = z3.Extract(15, 8, u), z3.Extract(7, 0, u)
+                        out += [lo, hi] if le else [hi, lo]
             return SBytes(out)
         if e in ("ascii", "latin-1", "latin1", "iso-8859-1"):
             lim = 128 if e == "ascii" else 256
@@ -864,10 +915,20 @@ FRESH_DIGESTS = False
 def _named(out):
     if not FRESH_DIGESTS or sym.CTX is None or not z3.is_app(out) or out.decl().arity() == 0:
         return out
-    v = z3.BitVec(sym.fresh("dg"), out.size())
+    # the same application gets the same name (terms are hash-consed), so recomputing a digest from the same bytes is
+    # syntactically the same value
+    hit = _NAMED.get(out.get_id())
+    if hit is not None and hit[0].eq(out):
+        v = hit[1]
+    else:
+        v = z3.BitVec(sym.fresh("dg"), out.size())
+        _NAMED[out.get_id()] = (out, v)
     DIGEST_DEFS[v.get_id()] = (v, out)
     sym.note(("def", v, out))
     return v
+
+
+_NAMED = {}
 
 
 #: name -> defining application, for the digest outputs named on the current run (see primenv.cone)
@@ -922,7 +983,10 @@ class SHash:
         return bytes_of(_named(out), n)
 
     def hexdigest(self):
-        raise Unsupported("hexdigest of symbolic digest")
+        from .hashenv import m_hexlify
+        d = self.digest()
+        h = m_hexlify(d)
+        return h.decode("ascii") if isinstance(h, (SBytes, bytes)) else h
 
 
 class FakeHashlib:
